@@ -22,6 +22,7 @@ EXPLANATION = (
     "merged types, projection results - value level."
     " Also decided (rules added after the fifth blind round): (R15.6) RecordDescriptor.__eq__ answers True only when name and field tuples are equal - the merge and projection caches are keyed by it."
     " Rules added after the sixth blind round: (R15.7) GroupedRecord._asdict/_replace read every value from the owning member and do not merge member dicts (plain attribute access: known finding F15c); (R15.8 = R5.9) generated constructor code never truth-tests a generic field value."
+    " Rules added after the seventh blind round: (R15.9) GroupedRecord._replace builds the new group from fresh copies of the members, never from the members of the receiver."
 )
 RULE_SUMMARY = "instances: (function, parameter) effect pairs, field reads with their reaching definitions, symbolic sequences per flag value, guards"
 
